@@ -20,7 +20,9 @@ RULE = ("(a) family closure: C02-style histories (all mutators incl. slice assig
         "resource must agree. (c) for every protected name, every public method name and dunder names: item "
         "assignment stores a plain item, no instance attribute changes identity, attribute access still "
         "returns the object's own attribute, later operations and a reload work. (d) every instance attribute "
-        "set by the constructors (roots and children, in and out of buffered contexts) is in _PROTECTED_KEYS. "
+        "set by the constructors (roots and children, in and out of buffered contexts) is in _PROTECTED_KEYS. (e) an "
+        "attribute object next to an object of the sibling non-attribute family on one file (unbuffered and inside both "
+        "backend-wide contexts, either touching first): family walk, attribute navigation and persistence. "
         "distinct = case hash / (class, key, depth, part); non-trivial = all.")
 ASSUMPTIONS = ["Redis/MongoDB/Zarr are in-process fakes"]
 STRATA = ["clean"]
@@ -222,6 +224,63 @@ def part_bcd(spec, out):
                     continue
                 out["keys"].append(gen.case_key([info.name, "c", name, ppath]))
                 r.remove()
+        # ---- (e) two families on one file: a non-attribute object of the sibling family and an attribute object
+        # share the file (unbuffered, and inside both classes' backend-wide contexts); whichever touches it first,
+        # every node under the attribute object must belong to the attribute family and writes through them persist
+        sib_name = info.name.replace("AttrDict", "Dict")
+        sib = catalog.info(sib_name).cls()
+        d_cls, l_cls = info.family_classes()
+        for buffered_mode in ([False, True] if info.buffered else [False]):
+            for first in ("sibling", "attr"):
+                n += 1
+                r = catalog.Resource(info, scratch, f"fam{n}")
+                r.outside_write(copy.deepcopy(INIT), bump=False)
+                a_obj = r.new_handle()
+                s_obj = sib(filename=r.path)
+                ctxs = []
+                if buffered_mode:
+                    ctxs = [sib.buffer_backend(), cls.buffer_backend()]
+                    for cm in ctxs:
+                        cm.__enter__()
+                out["evaluations"] += 1
+                case = {"cls": info.name, "sibling": sib_name, "buffered": buffered_mode, "first": first}
+                try:
+                    try:
+                        # inside buffered contexts the sibling only reads: the two classes keep separate
+                        # buffers, so buffered writes through both would (rightly) end in a metadata conflict
+                        def sibling_touch():
+                            if buffered_mode:
+                                return s_obj["c"]["q"]
+                            s_obj["c"]["q"] = 3
+
+                        if first == "sibling":
+                            sibling_touch()
+                            _ = a_obj["c"]
+                        else:
+                            _ = a_obj["c"]
+                            sibling_touch()
+                        bad = _walk_family(a_obj, d_cls, l_cls)
+                        got = a_obj.c.n.m.deep
+                        a_obj.c.n.m.deep = 7
+                    except Exception as e:  # noqa: BLE001
+                        bad = f"raised {type(e).__name__}: {e}"
+                finally:
+                    for cm in reversed(ctxs):
+                        try:
+                            cm.__exit__(None, None, None)
+                        except Exception as e:  # noqa: BLE001
+                            bad = bad or f"context exit raised {type(e).__name__}: {e}"
+                if not bad:
+                    disk = r.probe()
+                    if disk.get("c", {}).get("n", {}).get("m", {}).get("deep") != 7:
+                        bad = f"write through the attribute object's nested child did not persist: {disk!r}"
+                if bad:
+                    out["violations"].append({"sig": {"cls": info.name, "kind": "cross_family", "buffered": buffered_mode},
+                                              "detail": f"{info.name} next to {sib_name} on one file (buffered={buffered_mode}, "
+                                                        f"first touch: {first}): {bad}", "case": case})
+                out["keys"].append(gen.case_key([info.name, "e", buffered_mode, first]))
+                catalog.reset_class_state(cls)
+                catalog.reset_class_state(sib)
         # ---- (d) every instance attribute is protected
         r = catalog.Resource(info, scratch, "d")
         r.outside_write(copy.deepcopy(INIT), bump=False)
@@ -260,6 +319,21 @@ def part_bcd(spec, out):
     finally:
         catalog.reset_class_state(cls)
         shutil.rmtree(scratch, ignore_errors=True)
+
+
+def _walk_family(node, d_cls, l_cls, path=()):
+    from synced_collections import SyncedCollection
+
+    data = node._data
+    want = d_cls if isinstance(data, dict) else l_cls
+    if type(node) is not want:
+        return f"node at {list(path)} is {type(node).__name__}, expected {want.__name__}"
+    for k, v in (data.items() if isinstance(data, dict) else enumerate(data)):
+        if isinstance(v, SyncedCollection):
+            b = _walk_family(v, d_cls, l_cls, path + (k,))
+            if b:
+                return b
+    return None
 
 
 _MISS = object()
